@@ -102,6 +102,14 @@ def run(ctx):
         okp = okp and len(seed) == 1 and fsync.precedes(seed[0], red[0])
     rb.expect(okp, 'sync_ids:publish', (pos or siz or [None])[0].loc if (pos or siz) else fsync.where(),
               'sync_ids must store the all-reduced position and the (possibly grown) size on every path, whether or not the table had to grow', note='sync_ids: pos = allreduce MAX(pos) and size published on every path')
+    # the position is read, all-reduced and written back: one critical section, or an id reserved in between is handed out twice
+    lk = [e for e in fsync.calls() if e.fn in ('parsec_atomic_lock',) and 'taskpool_array_lock' in e.args[0].s]
+    ul = [e for e in fsync.calls() if e.fn in ('parsec_atomic_unlock',) and 'taskpool_array_lock' in e.args[0].s]
+    acc = [ev for ev, kind, name in global_events(fsync)]
+    oks = len(lk) == 1 and len(ul) >= 1 and bool(acc) and all(not fsync.reaches(u_.point, a.point) for u_ in ul for a in acc)
+    rb.expect(oks, 'sync_ids:one-critical-section', (ul or lk or [None])[0].loc if (ul or lk) else fsync.where(),
+              'sync_ids reads the position, all-reduces it and writes it back: the lock must be held from the read to the write-back (one critical section) - released in between, an id reserved by another thread is overwritten by the stale snapshot and handed out again',
+              note='sync_ids: read, all-reduce and write-back of the position in one critical section')
     f = u.func('parsec_taskpool_reserve_id'); tp = f.params[0]['n']
     n = 0
     for pi in pathq.all_paths(f):
